@@ -50,6 +50,189 @@ func runC15(c *engine.Ctx) {
 	c15SkipAfterReserve(c, r6)
 }
 
+// c15ReserveHelper handles `func (mq) wait(size) bool { select { case <-alloc(size): return true; case <-done: return false } }`
+// called as `if size > 0 && !mq.wait(size) { return }; build`.
+func c15ReserveHelper(c *engine.Ctx, rule, key string, f *ssa.Function, ci engine.CallInfo, size *ssa.Parameter) {
+	alloc := ci.Value()
+	var sel *ssa.Select
+	allocIdx := -1
+	engine.Instrs(f, func(in ssa.Instruction) {
+		if s, ok := in.(*ssa.Select); ok {
+			for i, st := range s.States {
+				if st.Dir == types.RecvOnly && st.Chan == alloc {
+					sel, allocIdx = s, i
+				}
+			}
+		}
+	})
+	if sel == nil {
+		c.Violate(rule, key, ci.Instr.Pos(), "the reservation channel is never received from: the build step does not wait for the grant")
+		return
+	}
+	// which boolean does the helper return after the grant, and which after any other select case?
+	grant, other := map[bool]bool{}, map[bool]bool{}
+	decided := true
+	collect := func(b *ssa.BasicBlock, into map[bool]bool) {
+		seen := map[*ssa.BasicBlock]bool{}
+		var walk func(b *ssa.BasicBlock)
+		walk = func(b *ssa.BasicBlock) {
+			if seen[b] {
+				return
+			}
+			seen[b] = true
+			if r, ok := b.Instrs[len(b.Instrs)-1].(*ssa.Return); ok {
+				if len(r.Results) != 1 {
+					decided = false
+					return
+				}
+				v, isC := engine.ConstBool(engine.ReturnValue(r, 0))
+				if !isC {
+					decided = false
+					return
+				}
+				into[v] = true
+			}
+			for _, s := range b.Succs {
+				walk(s)
+			}
+		}
+		walk(b)
+	}
+	found := false
+	for _, b := range f.Blocks {
+		ifi, ok := b.Instrs[len(b.Instrs)-1].(*ssa.If)
+		if !ok {
+			continue
+		}
+		bo, ok := ifi.Cond.(*ssa.BinOp)
+		if !ok || bo.Op != token.EQL {
+			continue
+		}
+		ex, ok := bo.X.(*ssa.Extract)
+		if !ok || ex.Tuple != sel || ex.Index != 0 {
+			continue
+		}
+		found = true
+		k, _ := engine.ConstInt(bo.Y)
+		if int(k) == allocIdx {
+			collect(b.Succs[0], grant)
+			// the false successor leads to the tests of the other cases (collected at their own If) or to the last case
+			if _, more := b.Succs[1].Instrs[len(b.Succs[1].Instrs)-1].(*ssa.If); !more {
+				collect(b.Succs[1], other)
+			}
+		} else {
+			collect(b.Succs[0], other)
+			if _, more := b.Succs[1].Instrs[len(b.Succs[1].Instrs)-1].(*ssa.If); !more {
+				// last case: the remaining index
+				if len(sel.States) == 2 && int(k) != allocIdx {
+					collect(b.Succs[1], grant)
+				}
+			}
+		}
+	}
+	if !found || !decided || len(grant) != 1 || (grant[true] && other[true]) || (grant[false] && other[false]) {
+		c.Undecided(rule, key, ci.Instr.Pos(), "the reservation is made in a helper whose result does not tell the grant from the other select cases (expected a boolean constant per case)")
+		return
+	}
+	grantPol := grant[true]
+	sites := c.P.CallSitesOf(f)
+	if len(sites) == 0 {
+		c.Violate(rule, key, ci.Instr.Pos(), "the reservation helper is never called: messages are built without reserving memory")
+		return
+	}
+	pf := c.P.Field("messagequeue", "MessageQueue", "p")
+	if !isLoadOfField(ci.Common.Args[0], pf) {
+		c.Violate(rule, key, ci.Instr.Pos(), "the reservation is not made for the queue's own peer")
+		return
+	}
+	for _, cs := range sites {
+		g := cs.Parent()
+		call, isCall := cs.(*ssa.Call)
+		var build ssa.Instruction
+		for _, cj := range engine.Calls(g) {
+			for _, a := range cj.Common.Args {
+				if p, ok := engine.Strip(a).(*ssa.Parameter); ok {
+					if _, isFn := p.Type().Underlying().(*types.Signature); isFn {
+						build = cj.Instr
+					}
+				}
+			}
+			if p, ok := cj.Common.Value.(*ssa.Parameter); ok {
+				if _, isFn := p.Type().Underlying().(*types.Signature); isFn {
+					build = cj.Instr
+				}
+			}
+		}
+		k := key + "|via " + engine.FuncName(g)
+		if !isCall || build == nil {
+			c.Undecided(rule, k, cs.Pos(), "cannot find the build step (a call using the build-function parameter) in the caller of the reservation helper")
+			continue
+		}
+		isBuild := func(in ssa.Instruction) bool { return in == build }
+		bad := ""
+		// (a) the size handed to the helper is the caller's own size parameter
+		idx := -1
+		for i, fp := range f.Params {
+			if fp == size {
+				idx = i
+			}
+		}
+		csize, _ := engine.Strip(call.Call.Args[idx]).(*ssa.Parameter)
+		if csize == nil {
+			c.Undecided(rule, k, cs.Pos(), "the amount reserved is not a parameter of the calling function")
+			continue
+		}
+		// (b) the refused answer never reaches the build step
+		for _, b := range g.Blocks {
+			ifi, ok := b.Instrs[len(b.Instrs)-1].(*ssa.If)
+			if !ok {
+				continue
+			}
+			v, pol := ifi.Cond, true
+			for {
+				u, ok := v.(*ssa.UnOp)
+				if !ok || u.Op != token.NOT {
+					break
+				}
+				v, pol = u.X, !pol
+			}
+			if v != ssa.Value(call) {
+				continue
+			}
+			refused := engine.CondSucc(ifi, pol != grantPol) // successor taken when call == !grantPol
+			if r, _ := engine.CanReachFromBlock(refused, isBuild, nil); r {
+				bad = "the build step is reachable after the reservation helper reported that the grant was not received"
+			}
+		}
+		if refs := call.Referrers(); refs == nil || len(*refs) == 0 {
+			bad = "the answer of the reservation helper is ignored"
+		}
+		// (c) with size > 0 the build step is not reachable without the helper
+		var guard *ssa.If
+		for _, cond := range engine.InstrConds(call) {
+			if bo, ok := cond.V.(*ssa.BinOp); ok && engine.Strip(bo.X) == ssa.Value(csize) {
+				if kk, ok := engine.ConstInt(bo.Y); ok && kk == 0 && ((bo.Op == token.GTR && cond.Pol) || (bo.Op == token.NEQ && cond.Pol) || (bo.Op == token.EQL && !cond.Pol)) {
+					guard = cond.If
+				}
+			}
+		}
+		if bad == "" {
+			if guard != nil {
+				pos := guard.Block().Succs[0]
+				if bo, ok := guard.Cond.(*ssa.BinOp); ok && bo.Op == token.EQL {
+					pos = guard.Block().Succs[1]
+				}
+				if r, _ := engine.CanReachFromBlock(pos, isBuild, func(in ssa.Instruction) bool { return in == ssa.Instruction(call) }); r {
+					bad = "with size > 0 the build step is reachable without passing the reservation"
+				}
+			} else if !engine.Before(call, build) {
+				bad = "the build step is not dominated by the reservation and there is no size > 0 guard"
+			}
+		}
+		c.Decide(rule, k, cs.Pos(), bad == "", "size > 0 => build step only after the reservation helper reported the grant", bad)
+	}
+}
+
 func c15Reserve(c *engine.Ctx, rule string, m *mqFacts) {
 	n := 0
 	for _, f := range m.fns {
@@ -83,7 +266,9 @@ func c15Reserve(c *engine.Ctx, rule string, m *mqFacts) {
 				}
 			}
 			if build == nil {
-				c.Undecided(rule, key, ci.Instr.Pos(), "cannot find the build step (a call using the build-function parameter)")
+				// the reservation lives in a helper: the helper must tell its callers whether the grant was
+				// received, and each caller must make the build step depend on that answer
+				c15ReserveHelper(c, rule, key, f, ci, size)
 				continue
 			}
 			isBuild := func(in ssa.Instruction) bool { return in == build }
@@ -390,7 +575,7 @@ func c15Reports(c *engine.Ctx, rule string, m *mqFacts) {
 				return engine.C1
 			}
 			return 0
-		}})
+		}, Deep: true})
 		ok := len(stops) > 0
 		got := ""
 		for _, s := range stops {
